@@ -327,6 +327,50 @@ def s_shuffle(x):
     _permute_inplace(x, "shuffle")
 
 
+def s_randrange(start, stop=None, step=1):
+    if not CH.active:
+        return _real_random("randrange")(start, stop, step) if stop is not None else _real_random("randrange")(start)
+    rng = range(start) if stop is None else range(start, stop, step)
+    if len(rng) == 0:
+        raise ValueError("empty range for randrange()")
+    if len(rng) > 4096:
+        raise UncontrolledRandomness(f"random.randrange over {len(rng)} values")
+    c = CH.choose(len(rng), None, label=f"randrange of {len(rng)}")
+    CH.note(("randrange", rng[c]))
+    return rng[c]
+
+
+def s_randint(a, b):
+    if not CH.active:
+        return _real_random("randint")(a, b)
+    return s_randrange(a, b + 1)
+
+
+def n_randint(low, high=None, size=None, dtype=int):
+    if not CH.active:
+        return _real_np("randint")(low, high, size)
+    _np.random.RandomState(0).randint(low, high, size)
+    lo, hi = (0, int(low)) if high is None else (int(low), int(high))
+    n = hi - lo
+    if n > 4096:
+        raise UncontrolledRandomness(f"np.random.randint over {n} values")
+    if size is None:
+        return lo + CH.choose(n, None, label=f"np.randint of {n}")
+    if isinstance(size, (int, _np.integer)):
+        return _np.asarray([lo + CH.choose(n, None, label=f"np.randint[{j}] of {n}") for j in range(int(size))])
+    raise UncontrolledRandomness("np.random.randint with a shape")
+
+
+def n_rand(*shape):
+    if not CH.active:
+        return _real_np("rand")(*shape)
+    if len(shape) == 0:
+        return n_random()
+    if len(shape) == 1:
+        return n_random(shape[0])
+    raise UncontrolledRandomness("np.random.rand with a shape")
+
+
 def s_random():
     if not CH.active:
         return _real_random("random")()
@@ -501,6 +545,28 @@ class ScriptedGenerator:
         CH.note(("dirichlet", c))
         return _np.asarray(menu[c], dtype=float)
 
+    # the other Generator methods votekit could plausibly switch to are routed to the same scripted primitives
+    def choice(self, a, size=None, replace=True, p=None, **kw):
+        return n_choice(a, size=size, replace=replace, p=p)
+
+    def random(self, size=None, **kw):
+        return n_random(size)
+
+    def uniform(self, low=0.0, high=1.0, size=None):
+        return n_uniform(low, high, size)
+
+    def normal(self, loc=0.0, scale=1.0, size=None):
+        return n_normal(loc, scale, size)
+
+    def integers(self, low, high=None, size=None, **kw):
+        return n_randint(low, high, size)
+
+    def shuffle(self, x, **kw):
+        return n_shuffle(x)
+
+    def permutation(self, x, **kw):
+        return n_permutation(x)
+
     def __getattr__(self, name):
         raise UncontrolledRandomness(f"Generator.{name}")
 
@@ -519,9 +585,11 @@ _SCRIPTED_RANDOM = {
     "shuffle": s_shuffle,
     "random": s_random,
     "uniform": s_uniform,
+    "randrange": s_randrange,
+    "randint": s_randint,
 }
 _TRAP_RANDOM = [
-    "randint", "randrange", "getrandbits", "randbytes", "triangular", "gauss",
+    "getrandbits", "randbytes", "triangular", "gauss",
     "normalvariate", "lognormvariate", "expovariate", "vonmisesvariate", "gammavariate",
     "betavariate", "paretovariate", "weibullvariate", "binomialvariate",
 ]
@@ -534,9 +602,11 @@ _SCRIPTED_NP = {
     "random_sample": n_random,
     "normal": n_normal,
     "default_rng": n_default_rng,
+    "randint": n_randint,
+    "rand": n_rand,
 }
 _TRAP_NP = [
-    "rand", "randn", "randint", "random_integers", "ranf", "sample", "bytes", "beta",
+    "randn", "random_integers", "ranf", "sample", "bytes", "beta",
     "binomial", "chisquare", "dirichlet", "exponential", "f", "gamma", "geometric",
     "hypergeometric", "lognormal", "logseries", "multinomial", "multivariate_normal",
     "negative_binomial", "noncentral_chisquare", "noncentral_f", "pareto", "poisson",
@@ -549,7 +619,8 @@ _TRAP_NP += ["laplace", "logistic", "gumbel"]
 
 for _f, _n in ((s_sample, "sample"), (s_choices, "choices"), (s_choice, "choice"), (s_shuffle, "shuffle"), (s_random, "random"),
                (s_uniform, "uniform"), (n_choice, "choice"), (n_shuffle, "shuffle"), (n_permutation, "permutation"),
-               (n_uniform, "uniform"), (n_random, "random"), (n_normal, "normal"), (n_default_rng, "default_rng")):
+               (n_uniform, "uniform"), (n_random, "random"), (n_normal, "normal"), (n_default_rng, "default_rng"),
+               (s_randrange, "randrange"), (s_randint, "randint"), (n_randint, "randint"), (n_rand, "rand")):
     _f.__name__ = _n  # votekit inspects voter_dist.__name__
 del _f, _n
 
